@@ -135,6 +135,12 @@ class RunCtx:
             mbox.Mailbox.FOLDER_SIZE_PACK_LIMIT = knobs["pack_limit"]
         if knobs.get("pack_ratio") is not None:
             mbox.Mailbox.FOLDER_RATIO_PACK_LIMIT = knobs["pack_ratio"]
+        if knobs.get("folder_scan_every") is not None:
+            # the periodic scan for new folders (90 s in production) runs far more often: whatever it can collide with
+            # (a RENAME in progress, a DELETE) gets its chance
+            import asimap.user_server as us_
+
+            us_.TIME_BETWEEN_FOLDER_SCANS = float(knobs["folder_scan_every"])
         if knobs.get("sock_buf"):
             # a small socket send buffer: the server's drain() really waits for the (slow) client
             import sim.net as simnet
